@@ -60,6 +60,9 @@ void h_chunk_data(void) { nni_http_chunk *ch; VP_HAVOC_GHOSTS(); nni_http_chunk_
 #define SEG_CS 4
 #endif
 
+nni_http_chunk g_seg_ch[2];
+char           g_seg_d[2][SEG_CS + 2];
+
 static void
 vp_seg_mk(struct nng_http_chunks *cl, int which, enum chunk_state st, size_t size, size_t line,
     size_t total, size_t maxsz, size_t csize, size_t cresid, const uint8_t *fill)
@@ -73,13 +76,11 @@ vp_seg_mk(struct nng_http_chunks *cl, int which, enum chunk_state st, size_t siz
 	g_chl[which].n    = 0;
 	g_chl[which].last = NULL;
 	if (st == CS_DATA) {
-		nni_http_chunk *ch = malloc(VP_LEM_OBJ);
-		__CPROVER_assume(ch != NULL);
+		nni_http_chunk *ch = &g_seg_ch[which];
 		ch->c_size  = csize;
 		ch->c_alloc = csize + 2;
 		ch->c_resid = cresid;
-		ch->c_data  = malloc(VP_LEM_OBJ);
-		__CPROVER_assume(ch->c_data != NULL);
+		ch->c_data  = &g_seg_d[which][0];
 		for (size_t i = 0; i < SEG_CS + 2; i++) {
 			if (i < csize + 2) {
 				ch->c_data[i] = (char) fill[i];
